@@ -170,6 +170,35 @@ def reasons(ctx):
                             if st["k"] == "assign" and st["rv"]["k"] == "agg" and st["rv"].get("adt") == path:
                                 got = st["rv"]["variant"]
                     mp[v] = got
+        if not mp:
+            # written as a lookup: `Self::ALL.iter().copied().find(|r| *r as u8 == val).ok_or(..)` over a constant table of
+            # variants: every listed variant is returned for its own discriminant, nothing else is
+            n2d = {v["name"]: v["discr"] for v in adt["variants"]}
+            for i, t in b.calls(r"Iterator::(find|position)$"):
+                table = None
+                for a in b.atoms(t["ops"][0]):
+                    if a[0] == "uneval" and ctx.facts.fn(a[1]) is not None:
+                        cb_ = ctx.world.body(a[1])
+                        names_ = [st["rv"]["variant"] for k_ in sorted(cb_.reach) for st in cb_.blocks[k_]["stmts"]
+                                  if st["k"] == "assign" and st["rv"]["k"] == "agg" and st["rv"].get("adt") == path]
+                        if names_:
+                            table = names_
+                clo = [a[1] for a in b.atoms(t["ops"][1]) if a[0] == "closure"]
+                if table is None or not clo:
+                    continue
+                cb2 = ctx.world.body(clo[0])
+                e = symex(cb2, {"l": 0, "p": []})
+                def strip_(x):
+                    while x[0] == "cast":
+                        x = x[2]
+                    return x
+                if e[0] == "bin" and e[1] == "Eq":
+                    sides = [strip_(e[2]), strip_(e[3])]
+                    elem = [x for x in sides if (x[0] == "discr") or (x[0] == "place" and x[4] == cb2.fn["arg_count"])]
+                    cap = [x for x in sides if x[0] == "place" and x[4] == 1]
+                    if len(elem) == 1 and len(cap) == 1 and any(a_[0] == "param" and a_[1] == 1 for a_ in b.atoms(t["ops"][1])):
+                        for n_ in table:
+                            mp[n2d[n_]] = n_
         ok = sorted(mp) == want and all(d2n.get(v) == n for v, n in mp.items())
         bad = sorted(set(mp) ^ set(want)) + [v for v, n in mp.items() if d2n.get(v) != n]
         out.append(Inst("REASONS", "%s:try_from" % nm, ok, b.site(0), "TryFrom<u8> maps %d codes%s" % (len(mp), "" if ok else "; mismatches %s" % _hex(bad)), "every legal code to the variant with that discriminant, nothing else"))
@@ -329,6 +358,43 @@ MAND_TABLE = {
 }
 
 
+def _literal_mandatory(ctx, badt, want_build):
+    """A received packet made without a builder (`Ok(SubackRx { packet_identifier, .. })`): a mandatory part is required
+    by construction when its field is not optional and the value in the literal is a decoded one. None when the decoder
+    does not make the packet this way."""
+    adt = badt[:-len("Builder")]
+    nm = badt.split("::")[-1]
+    decs = rx_decoders(ctx)
+    ent = decs.get(adt.split("::")[-1])
+    a = ctx.facts.adts.get(adt)
+    if ent is None or a is None or ent[0] != adt:
+        return None
+    body = ent[1]
+    lits = [(i, st) for i in sorted(body.reach) for st in body.blocks[i]["stmts"]
+            if st["k"] == "assign" and st["rv"]["k"] == "agg" and st["rv"].get("adt") == adt]
+    if not lits:
+        return None
+    fields = [f["name"] for f in a["variants"][0]["fields"]]
+    ftys = {f["name"]: f["ty"] for f in a["variants"][0]["fields"]}
+    out = []
+    for m in sorted(want_build):
+        if m not in fields:
+            out.append(Inst("MANDATORY", "%s:literal:%s" % (nm, m), False, body.site(lits[0][0]), "%s has no field %s" % (adt, m), "mandatory part"))
+            continue
+        bad = []
+        if ftys[m].startswith("std::option::Option<"):
+            bad.append("the field is optional")
+        for i, st in lits:
+            o = st["rv"]["ops"][fields.index(m)]
+            ats = body.atoms(o) if o.get("k") != "const" else set()
+            if not any(x[0] == "call" and re.search(r"core::utils::(Decoder|TryDecode)::", strip_generics(x[1])) for x in ats):
+                bad.append("the value at %s is not a decoded one" % body.site(i))
+        out.append(Inst("MANDATORY", "%s:literal:%s" % (nm, m), not bad, body.site(lits[0][0]),
+                        "%s is made by a literal in its decoder; %s: %s" % (adt.split("::")[-1], m, "; ".join(bad) or "not optional, and decoded from the packet in every literal"),
+                        "mandatory parts %s are required by construction" % sorted(want_build)))
+    return out
+
+
 @rule("MANDATORY", floor=20)
 def mandatory(ctx):
     """A packet builder refuses exactly the requests / packets that lack a part the standard makes
@@ -339,7 +405,10 @@ def mandatory(ctx):
         bi = builder_info(ctx, badt)
         nm = badt.split("::")[-1]
         if bi is None:
-            if want_build or want_val:
+            lit = _literal_mandatory(ctx, badt, want_build) if (nm.endswith("RxBuilder") and not want_val) else None
+            if lit is not None:
+                out.extend(lit)
+            elif want_build or want_val:
                 out.append(Inst("MANDATORY", "%s:missing-builder" % nm, False, "src/codec", "no build() for %s" % badt, "builder"))
             continue
         ctx.note(bi["build"])
@@ -417,6 +486,43 @@ def shortform(ctx):
             out.append(Inst("SHORTFORM", "%s:%s" % (nm, what), bool(free), body.site(i),
                             "decode of %s %s" % (what, "is skipped on %d of %d success exits" % (len(free), len(succ)) if free else "dominates every success exit: the shortened form is rejected"),
                             "a packet ending before its %s is accepted (reason 0 / no properties)" % what))
+    return out
+
+
+@rule("FULLFORM", floor=4)
+def fullform(ctx):
+    """The packets that have no shortened form (CONNACK, PUBLISH, SUBACK, UNSUBACK) are decoded to their end on every
+    success path: the decode of the property length (and with it the property section that follows) dominates every Ok
+    exit of the decoder. An early `return builder.build()` -- whatever value it is taken on -- accepts a packet without
+    having read what the standard puts there, and hands out defaults in its place."""
+    out = []
+    decs = rx_decoders(ctx)
+    for nm in ("ConnackRx", "PublishRx", "SubackRx", "UnsubackRx"):
+        if nm not in decs:
+            raise AnchorLost("decoder %s" % nm)
+        adt, body = decs[nm]
+        succ = [i for i, t in body.calls(r"Builder::build$") if t["dest"]["l"] == 0]
+        for i in sorted(body.reach):
+            for st in body.blocks[i]["stmts"]:
+                if st["k"] == "assign" and st["lhs"]["l"] == 0 and not st["lhs"]["p"] and st["rv"]["k"] == "agg" and st["rv"].get("variant") == "Ok":
+                    succ.append(i)
+        # a result built elsewhere and moved into the return place (`let r = builder.build(); r`)
+        for i, t in body.calls(r"Builder::build$"):
+            if t["dest"]["l"] != 0 and i not in succ:
+                succ.append(i)
+        if not succ:
+            raise AnchorLost("success exit of %s::try_decode" % nm)
+        tdc = [(i, t) for i, t in body.calls(r"core::utils::Decoder::try_decode$")]
+        vsi = [(i, t) for i, t in tdc if (t["callee"].get("args") or ["?"])[-1].endswith("VarSizeInt")]
+        vsi.sort(key=lambda x: len(body.dominators(x[0])))
+        if len(vsi) < 2:
+            out.append(Inst("FULLFORM", "%s:property-length" % nm, True, body.site(0), "NOT DECIDED: the property length of %s is not decoded by a Decoder::try_decode::<VarSizeInt> call this rule can read" % nm, "", {"undecided": True}))
+            continue
+        pi, pt = vsi[1]
+        early = [s_ for s_ in succ if not body.dominates(pi, s_)]
+        out.append(Inst("FULLFORM", "%s:property-length" % nm, not early, body.site(early[0]) if early else body.site(pi),
+                        "the decode of the property length %s" % ("dominates all %d success exit(s)" % len(succ) if not early else "is skipped on the success exit(s) at %s" % sorted({body.site(x) for x in early})),
+                        "%s has no shortened form: every accepted packet was read to its end" % nm))
     return out
 
 
@@ -816,7 +922,7 @@ def decode_loop(ctx):
     return out
 
 
-@rule("ACCUMULATE", floor=3)
+@rule("ACCUMULATE", floor=1)
 def accumulate(ctx):
     """A builder setter that appends to a collection held in an optional field (`user_property`, the reason codes of
     SUBACK / UNSUBACK, ..) keeps what is already there: the field is (re)initialised only on the edge on which it is
@@ -931,6 +1037,10 @@ def setter(ctx):
             continue
         name = f["name"]
         b = ctx.world.body(f["path"])
+        try:
+            b = ctx.flat(b)         # a private combinator the setters go through (`self.with(|b| b.reason(val))`) is looked at in place
+        except AnchorLost:
+            pass
         ctx.note(b)
         ty = short_ty(re.sub(r"<.*>", "", st))
         ret_self = f.get("sig_out") == st
@@ -1226,6 +1336,32 @@ def _rem_constraint(body, c, succ, rem_ids, tdc, rem_bb, cond_bb):
     return {"Eq": (k, k), "Lt": (0, k - 1), "Le": (0, k), "Gt": (k + 1, 10 ** 9), "Ge": (k, 10 ** 9)}.get(op)
 
 
+def _result_locals(body, adt):
+    """The user locals of a decoder that the literal of the decoded packet (`XRx { a, b, .. }`) is made of (through plain
+    moves); empty when the packet is made by a builder."""
+    out = set()
+    for i in sorted(body.reach):
+        for st in body.blocks[i]["stmts"]:
+            if st["k"] == "assign" and st["rv"]["k"] == "agg" and st["rv"].get("adt") == adt:
+                for o in st["rv"]["ops"]:
+                    seen = set()
+                    work = [o]
+                    while work:
+                        x = work.pop()
+                        if x.get("k") not in ("move", "copy") or x["pl"]["p"]:
+                            continue
+                        l = x["pl"]["l"]
+                        if l in seen:
+                            continue
+                        seen.add(l)
+                        out.add(l)
+                        for j in sorted(body.reach):
+                            for st2 in body.blocks[j]["stmts"]:
+                                if st2["k"] == "assign" and st2["lhs"]["l"] == l and not st2["lhs"]["p"] and st2["rv"]["k"] == "use":
+                                    work.append(st2["rv"]["op"])
+    return out
+
+
 @rule("LEGAL-ARM", floor=30)
 def legal_arm(ctx):
     """Inside a decoder's property loop, the arm of every legal property stores the value with its builder
@@ -1243,6 +1379,22 @@ def legal_arm(ctx):
                 continue        # illegal property: rejected
             reg = {x for x in body.reachable_from(entry, avoid=[o for o in allentries if o != entry] + [sw]) if body.dominates(entry, x)}
             setters = [i for i in reg if body.term(i)["k"] == "call" and re.search(r"Builder::\w+$", callee_name(body.term(i)) or "") and not (callee_name(body.term(i)) or "").endswith("::build")]
+            # a decoder without a builder: the packet is put together from locals (`reason_string = Some(val)`,
+            # `user_property.push(val)`, then `Ok(SubackRx { reason_string, user_property, .. })`): a store is a write
+            # to one of the locals the result literal is made of
+            rl = _result_locals(body, adt)
+            if rl:
+                for i in reg:
+                    if any(st["k"] == "assign" and st["lhs"]["l"] in rl for st in body.blocks[i]["stmts"]):
+                        setters.append(i)
+                    t_ = body.term(i)
+                    if t_["k"] == "call" and t_["ops"] and i not in setters:
+                        o0 = t_["ops"][0]
+                        if o0.get("k") in ("move", "copy") and not o0["pl"]["p"]:
+                            ds_ = body.whole_defs(o0["pl"]["l"])
+                            if len(ds_) == 1 and ds_[0][0] == "stmt" and ds_[0][3]["rv"]["k"] == "ref" and ds_[0][3]["rv"].get("mut") \
+                                    and ds_[0][3]["rv"]["pl"]["l"] in rl:
+                                setters.append(i)
             errs = [x for x in reg if is_err_block(body, x)]
             branches = [x for x in reg if len(body.succ(x)) > 1 and x != entry and body.term(x)["k"] == "switch" and body.term(x)["op"].get("k") != "const"]
             # every path through the arm passes a setter: the first setter block dominates the arm's exits, i.e. no branch before it
